@@ -299,3 +299,12 @@ def counterexample(res):
     """Extract the error trace states (as raw text blocks) from TLC output."""
     blocks = re.split(r"^State \d+: ", res.out, flags=re.M)[1:]
     return [b.strip() for b in blocks]
+
+
+def simulate_paths(spec, cfg_text, module_text, *, num, depth, seed, timeout=900, name=None):
+    """TLC -simulate as a generator of behaviours: the MC module carries a history variable
+    and a CONSTRAINT that prints <<"PATH", json>> once the history has `depth` steps."""
+    res = run(spec, cfg_text, module_text=module_text, name=name or spec, workers=1, timeout=timeout, simulate="num=%d" % num, depth=depth + 1, seed=seed)
+    if res.timed_out or res.error:
+        raise MachineryError("simulation of %s failed: %s\n%s" % (spec, res.error or "timeout", res.out[-3000:]))
+    return [json.loads(p[1]) for p in res.prints if p[0] == "PATH"], res
